@@ -303,12 +303,17 @@ def storage_case(sh, s, d, case):
     fmts = ['tuple', 'oid', 'w', 'wdb', 'm', 'n']
     proto = rnd.choice([1, 2, 3])
     legacy = rnd.random() < 0.2
+    grnd = random.Random(s + 21)
 
     def ref():
         f = rnd.choice(fmts + (['tuple-str', 'oid-str'] * 2 if legacy else []))
         # a legacy str oid only occurs when all its bytes are < 0x80
         o = p64(rnd.randrange(1, 128) if f.endswith('-str') else rnd.randrange(1, 300))
-        return objs.Ref(o, f, dbname='otherdb' if f in ('wdb', 'm', 'n') else None)
+        # (the class named by a reference may not be importable where conflicts are resolved)
+        gone = f in ('tuple', 'm') and grnd.random() < 0.35
+        if gone:
+            sh.count('references_naming_an_unimportable_class')
+        return objs.Ref(o, f, cls=objs.GoneRef if gone else None, dbname='otherdb' if f in ('wdb', 'm', 'n') else None)
     cls = rnd.choice([objs.Counter, objs.USet, objs.MaxReg, objs.Plain, objs.Raiser, 'missing'])
 
     def state(i):
@@ -328,8 +333,9 @@ def storage_case(sh, s, d, case):
             p = zp.Pickler(f, proto)
             p.persistent_id = objs._pid
             # class meta as a (module, name) tuple naming a module that does not exist
-            p.dump((('zv_no_such_module', 'Gone'), None))
-            p.dump(stt)
+            with objs.gone_module():
+                p.dump((('zv_no_such_module', 'Gone'), None))
+                p.dump(stt)
             return f.getvalue()
         return objs.make_record(cls, stt, protocol=proto)
 
